@@ -29,7 +29,7 @@ PropOfFamily(f) == CASE f = "ep" -> "C06" [] f = "pt" -> "C13" [] f = "fw" -> "C
 EpNames(e) == {e.entry_points[i].n : i \in 1..Len(e.entry_points)}
 EpKey(it, n) == <<it.twin, n>>
 EpChecks(it, e) ==
-    /\ Chk("C14", "entry_point_set_does_not_depend_on_the_order_of_override_attributes", l, EpNames(e) = ExpectedEntryPoints(it))
+    /\ Chk("C14", "entry_point_set_does_not_depend_on_the_order_of_declarations", l, EpNames(e) = ExpectedEntryPoints(it))
     /\ Chk("C06", "entry_points_are_defaults_plus_declared_minus_overridden", l, EpNames(e) = ExpectedEntryPoints(it))
     /\ Chk("C06", "each_entry_point_emitted_once", l, Len(e.entry_points) = Cardinality(EpNames(e)))
     /\ Chk("C06", "overriding_a_kind_does_not_alter_another_entry_point", l,
